@@ -605,7 +605,7 @@ func TestC07(t *testing.T) {
 		"DAG read back from the store node by node, DagReader output, second import into another store with short reads; " +
 		"non-trivial = at least 2 chunks and a tree of height >= 2, or attributes requested; distinct by configuration")
 	cs := vh.NewCases(e, "From V Require Import lib.Tree model.M_C07.\nOpen Scope Z_scope.", "case", "check_case", 60)
-	nSmall, nBig := e.Pick(320, 12000), e.Pick(30, 800)
+	nSmall, nBig := e.Pick(320, 4000), e.Pick(30, 250)
 	maxChunks := e.Pick(400, 700)
 	maxBig := e.Pick(1<<20, 4<<20)
 	var cfgs []config
